@@ -164,11 +164,43 @@ def run(tier, seed=0, shard=(0, 1)):
     if shard[0] == 0:
         bubbles(rep, D, 'monoidal')
         semantic(rep)
+        tensor_values(rep)
     for d in D[:3] + R[:3]:
         rep.sample(repr(d))
     if shard[0] == 3 % shard[1]:
         catalogue_daggers(rep)
     return rep.result()
+
+
+def tensor_values(rep):
+    """the laws on the VALUES of the tensor class (discopy.tensor.Tensor overrides then / tensor / dagger / id), for shapes
+    with different numbers of input and output wires and different dimensions"""
+    import numpy
+    from discopy.tensor import Tensor, Dim
+    shapes = [((2,), (3, 2)), ((3, 2), (5,)), ((5,), (2, 2, 3)), ((), (2, 3)), ((2, 3), ()), ((2,), (2,)), ((3, 2), (2, 3)), ((), ())]
+    vals = []
+    for k, (a, b) in enumerate(shapes):
+        n = int(numpy.prod(a + b)) if a + b else 1
+        arr = (numpy.arange(1, n + 1) * (k + 1)) % 7 + 1j * ((numpy.arange(n) * 3 + k) % 5)
+        vals.append(Tensor(Dim(*a), Dim(*b), arr))
+    for t in vals:
+        rt = repr(t)[:120]
+        rep.case(('tensor value', rt), nontrivial=True)
+        eq(rep, 'tensor_value.dagger.involutive', lambda: t.dagger().dagger(), lambda: t, rt)
+        eq(rep, 'tensor_value.dagger.types', lambda: (t.dagger().dom, t.dagger().cod), lambda: (t.cod, t.dom), rt)
+        eq(rep, 'tensor_value.then.unit', lambda: Tensor.id(t.dom) >> t, lambda: t, rt)
+        eq(rep, 'tensor_value.then.unit', lambda: t >> Tensor.id(t.cod), lambda: t, rt)
+        eq(rep, 'tensor_value.tensor.unit', lambda: Tensor.id(Dim(1)) @ t, lambda: t, rt)
+        eq(rep, 'tensor_value.dagger.id', lambda: Tensor.id(t.dom).dagger(), lambda: Tensor.id(t.dom), rt)
+        for u in vals:
+            ru = rt + ' ; ' + repr(u)[:120]
+            eq(rep, 'tensor_value.dagger.monoidal', lambda: (t @ u).dagger(), lambda: t.dagger() @ u.dagger(), ru)
+            eq(rep, 'tensor_value.tensor.whisker', lambda: t @ u, lambda: t @ Tensor.id(u.dom) >> Tensor.id(t.cod) @ u, ru)
+            if t.cod == u.dom:
+                eq(rep, 'tensor_value.dagger.contravariant', lambda: (t >> u).dagger(), lambda: u.dagger() >> t.dagger(), ru)
+                for w in vals:
+                    if u.cod == w.dom:
+                        eq(rep, 'tensor_value.then.assoc', lambda: (t >> u) >> w, lambda: t >> (u >> w), ru)
 
 
 def semantic(rep):
